@@ -118,6 +118,9 @@ func VerifC06Reset() {
 			panicked = true
 			break
 		}
+		// every state visited from reset satisfies the invariant and the relation the inductive step starts from
+		zz.Assert(c06inv(rd), "reset:invariant-holds-on-reachable-state")
+		zz.Assert(c06sim(rd, ref), "reset:relation-holds-on-reachable-state")
 	}
 	zz.Assert(!panicked, "reset:no-panic")
 	if panicked {
